@@ -19,7 +19,7 @@ CHECKS = {
          "All streams of length 0..=5/6 over 9 message kinds (status, VCP, type 15, 3, 18, unknown 200, type-31 with 0/4/10 blocks), all 256x16/256x256 two-frame type-code pairs, 300-message streams, every truncation point of a base set, and a context sweep in which the first message has one body halfword or - for every fixed-length kind - its header size / segment-count / segment-number field (incl. the variable-length marker with five 32-bit sizes) varied. Message i must equal the same bytes decoded alone, counts and order preserved, undecoded types are placeholders occupying one frame, cuts inside a body are errors and shorter-than-header tails are ignored.",
          "reference framing (2432-byte frames, contiguous type-31)", "DESIGN.md §5 C03", "E3"),
  "C04": ("exploration",
-         "deviation-bounded mutation (<=2 byte deviations from valid streams), every prefix, field-extreme products and an exhaustive small scope of byte strings, under a counting allocator, fuel reader and watchdog",
+         "deviation-bounded mutation (<=2 byte deviations from valid streams), every prefix, field-extreme products (type-31 blocks, message-header size/segment fields incl. 32-bit sizes up to 4 GiB) and an exhaustive small scope of byte strings, under a counting allocator, fuel reader and watchdog",
          "Totality of every decode entry point and of radial()/into_radial(): all prefixes of valid streams, all single-byte mutations x 8 values and all pairs on structural bytes, type-31/VCP/clutter field extremes, all strings of length <=2 x 256 type codes and all strings of length 3..6/8 over an 8-symbol alphabet. Each call must return, not exhaust a 64+8*len operation budget, and keep peak allocation under 4 MiB + 64*len.",
          "bounded scope (not all byte strings); allocator/fuel/watchdog in the harness", "DESIGN.md §5 C04", "E1/E3"),
  "C05": ("exploration",
